@@ -256,8 +256,10 @@ def run_go(lines, tag="go", **kw):
     return _run_sharded(os.path.join(BUILD, "harness"), lines, tag, extra_args=("run",), **kw)
 
 def run_model(lines, tag="model", **kw):
-    env = dict(os.environ, OCAMLRUNPARAM="l=4G")
-    return _run_sharded(os.path.join(BUILD, "model_driver"), lines, tag, env=env, **kw)
+    # the extracted model recurses on fuel: a large but bounded stack (2 GB), and a bounded address space, so that a
+    # model run on a broken tree (e.g. no call-depth limit any more) ends in `fuel=stack`, not in exhausting the machine
+    env = dict(os.environ, OCAMLRUNPARAM="l=256M")
+    return _run_sharded(os.path.join(BUILD, "model_driver"), lines, tag, env=env, prefix=("prlimit", "--as=12884901888"), **kw)
 
 def case_line(cid, kind, **fields):
     parts = ["id=%s" % cid, "kind=%s" % kind]
